@@ -60,7 +60,11 @@ def field_forms_b(names):
         forms += [(["list", [n - 1, 0]], [n - 1, 0], "B"), (["names", [names[n - 1], names[0]]], [n - 1, 0], "B"),
                   (["slice", None, None, 2], slice(None, None, 2), "B"), (["list", [0, 0]], [0, 0], "B")]
     if n >= 3:
-        forms += [(["list", [1, 2, 0]], [1, 2, 0], "B"), (["list", [0, 2, 1]], [0, 2, 1], "B"), (["slice", -2, None, None], slice(-2, None), "B")]
+        forms += [(["list", [1, 2, 0]], [1, 2, 0], "B"), (["list", [0, 2, 1]], [0, 2, 1], "B"), (["slice", -2, None, None], slice(-2, None), "B"),
+                  # ends of a consecutive run around a repeated / permuted interior
+                  (["list", [0, 0, 2]], [0, 0, 2], "B"), (["list", [0, 2, 2]], [0, 2, 2], "B")]
+    if n >= 4:
+        forms += [(["list", [0, 2, 1, 3]], [0, 2, 1, 3], "B"), (["names", [names[0], names[2], names[1], names[3]]], [0, 2, 1, 3], "B")]
     return forms
 
 
